@@ -39,6 +39,11 @@ def _single_cases(draw, tier):
         # n-D shape (4 coordinates)
         d["P"] = [p + [p[0] * 0.5] * (4 - len(p)) for p in d["P"]]
         d["dim"] = 4
+    e_ = draw(st.sampled_from([0, 0, 0, 0, 0, -12, -12, -30]))
+    if e_:
+        # a model in small units: coordinates are multiples of 2^-15 (2^-33) instead of 1/8
+        d["P"] = [[c * 2.0 ** e_ for c in q] for q in d["P"]]
+        d["fine_coordinates"] = True
     pdim = len(d["degree"])
     prm = draw(st.lists(gen.params(pdim), min_size=1, max_size=4))
     mode = draw(st.sampled_from(["w", "w", "pw", "pww"]))
